@@ -89,7 +89,10 @@ func rtEncv(o *out, buflen int, off int, v uint64, sentinel byte) {
 func rtSkip(o *out, b []byte, class string) {
 	var n int
 	var err error
-	_, panicked := catchInt(func() int { n, err = runtime.Skip(b); return 0 })
+	var panicked bool
+	o.guard("C15", "skip-hang", "Skip("+hx(b)+") does not terminate", func() {
+		_, panicked = catchInt(func() int { n, err = runtime.Skip(b); return 0 })
+	})
 	obs := ""
 	switch {
 	case panicked:
